@@ -175,6 +175,7 @@ class FGTreeNode:
         return (
             self.fgconfig.pattern_len,
             len(self.fgconfig.pattern),
+            self.fgconfig.pattern.number_of_edges(),
             self.fgconfig.pattern_str,
         )
 
@@ -189,7 +190,12 @@ def sort_by_pattern_len(configs: list[FGConfig], reverse=False) -> list[FGConfig
     return list(
         sorted(
             configs,
-            key=lambda x: (x.pattern_len, len(x.pattern), x.pattern_str),
+            key=lambda x: (
+                x.pattern_len,
+                len(x.pattern),
+                x.pattern.number_of_edges(),
+                x.pattern_str,
+            ),
             reverse=reverse,
         )
     )
